@@ -100,6 +100,8 @@ def check_case(stats, case):
             raise Discard('vm budget')
         stats.cls('runs_S_ge_smin' if smin is None or S >= smin else 'runs_S_lt_smin')
         where = 'ws=%d S=%d (S_min=%s) argv=%r' % (ws, S, smin, vals)
+        if run.res is None:
+            return ('asm', '%s: %s\n%s' % (where, run.outcome, src))
         if run.res.faults:
             return ('machine_fault', '%s: machine fault on a (possibly speculative) path of a checked build: %r\n%s' % (where, run.res.faults[:3], src))
         if mon.violations:
